@@ -344,11 +344,15 @@ PROPS['C05'] = dict(
                'of Submits per executor must equal the model (ThenInline submits nothing) and after a refused Submit the '
                'step sees StopError, value callbacks are skipped and the chain completes with the model\'s result; '
                '(b) every job handed to the library\'s executors is Called xor Dropped exactly once, Drop only if '
-               'something refused, under explorer-chosen interleavings of Submit with Stop/SoftStop/HardStop.',
+               'something refused, under explorer-chosen interleavings of Submit with Stop/SoftStop/HardStop; (c) continuation '
+               'chains over FairThreadPool / Strand / Manual while a fiber stops the pool: the chain always completes, a refused '
+               'step sees StopError, value callbacks are skipped afterwards, order and exactly-once hold.',
     jobs=q([dict(target='pipeline', family='placement', mode='random', cases=60000, workers=8, timeout=900),
-            dict(target='exec', family='execjobs', mode='random', cases=15000, workers=8, timeout=900)],
+            dict(target='exec', family='execjobs', mode='random', cases=15000, workers=5, timeout=900),
+            dict(target='realpipe', family='realpipe', mode='random', cases=15000, workers=3, timeout=900)],
            [dict(target='pipeline', family='placement', mode='random', cases=1500000, workers=10, timeout=3000, max_size=200),
-            dict(target='exec', family='execjobs', mode='random', cases=300000, workers=10, timeout=3000)]))
+            dict(target='exec', family='execjobs', mode='random', cases=300000, workers=6, timeout=3000),
+            dict(target='realpipe', family='realpipe', mode='random', cases=300000, workers=4, timeout=3000)]))
 REL = {'VF_RELEASE_ONLY': '1'}
 PROPS['C03'] = dict(
     level='exploration', assumptions=PIPE_ASSUME + FIBER_ASSUME,
@@ -367,14 +371,16 @@ PROPS['C03'] = dict(
             dict(target='when', family='whenall', mode='random', cases=10000, workers=2, timeout=900, env=REL),
             dict(target='when', family='whenany', mode='random', cases=10000, workers=2, timeout=900, env=REL),
             dict(target='coro', family='coro', mode='random', cases=8000, workers=2, timeout=900, env=REL),
-            dict(target='wait', family='waitgroup', mode='random', cases=8000, workers=1, timeout=900, env=REL)],
+            dict(target='wait', family='waitgroup', mode='random', cases=8000, workers=1, timeout=900, env=REL),
+            dict(target='realpipe', family='realpipe', mode='random', cases=10000, workers=1, timeout=900, env=REL)],
            [dict(target='pipeline', family='release', mode='random', cases=1500000, workers=4, timeout=3000, max_size=200),
             dict(target='handoff', family='handoff', mode='random', cases=300000, workers=2, timeout=3000, env=REL),
             dict(target='shared', family='shared', mode='random', cases=200000, workers=3, timeout=3000, env=REL),
             dict(target='when', family='whenall', mode='random', cases=200000, workers=2, timeout=3000, env=REL),
             dict(target='when', family='whenany', mode='random', cases=200000, workers=2, timeout=3000, env=REL),
             dict(target='coro', family='coro', mode='random', cases=150000, workers=2, timeout=3000, env=REL),
-            dict(target='wait', family='waitgroup', mode='random', cases=150000, workers=1, timeout=3000, env=REL)]))
+            dict(target='wait', family='waitgroup', mode='random', cases=150000, workers=1, timeout=3000, env=REL),
+            dict(target='realpipe', family='realpipe', mode='random', cases=150000, workers=1, timeout=3000, env=REL)]))
 
 PROPS['C04'] = dict(
     level='exploration',
